@@ -59,7 +59,8 @@ func ExpandMsgXmd(msg, dst []byte, lenInBytes int) ([]byte, error) {
 	b1 := h.Sum(nil)
 
 	res := make([]byte, lenInBytes)
-	copy(res[:h.Size()], b1)
+	// lenInBytes may be smaller than the digest size (including 0): keep only the leading bytes of b₁
+	copy(res, b1)
 
 	for i := 2; i <= ell; i++ {
 		// b_i = H(strxor(b₀, b_(i - 1)) ∥ I2OSP(i, 1) ∥ DST_prime)
